@@ -48,6 +48,10 @@ Check (C17_resolve_verdict : forall its,
 Check (C17_resolve_verdict_permutation : forall its its',
   Permutation its its' ->
   vclass (resolve_schema_extensions its) = vclass (resolve_schema_extensions its')).
+Check (C17_skeleton_def_permutation : forall (pi : oracle) (o : hmap scfg) (doc doc' : list item),
+  is_oracle pi -> Permutation doc doc' -> NoDup (map d_name (type_defs doc)) ->
+  forall l, print_skeleton pi o doc = Ok l ->
+  exists l', print_skeleton pi o doc' = Ok l' /\ decls_equiv l l').
 Print Assumptions C17_all_sites_accounted.
 Print Assumptions C17_known_sites_all_scanned.
 Print Assumptions C17_all_hash_files_accounted.
@@ -62,3 +66,4 @@ Print Assumptions C17_extension_list_order_irrelevant.
 Print Assumptions C17_extension_list_sorted.
 Print Assumptions C17_resolve_verdict.
 Print Assumptions C17_resolve_verdict_permutation.
+Print Assumptions C17_skeleton_def_permutation.
